@@ -225,3 +225,33 @@ def check_transit(w, r):
         bad = (w.roots['move_to_ready_items'][0], 'no path moves a batch')
     (r.ok if not bad else r.fail)('C14.R3', key, 'two transit timeouts, then the whole batch in one atomic segment' if not bad else bad[1],
                                   src(fi.module), fi.node.lineno, *([bad[0].describe()] if bad else []))
+    # R6: the batch is decided at departure - a copy of the waiting items taken after the transit waits also contains what was loaded during the trip
+    r.rule('C14.R6', 'the set of items delivered by a trip is fixed before the transit waits (no copy of the live list taken on arrival)', 1)
+    key6 = f'{s.ci.label}.move_to_ready_items::batch-fixed-at-departure'
+    bad6 = None
+    n6 = 0
+    for pa in w.roots['move_to_ready_items']:
+        if pa.raises:
+            continue
+        evs = pa.events
+        ys = [i for i, e in enumerate(evs) if e.kind == 'yield' and e.cls == 'timeout']
+        loops = [i for i, e in enumerate(evs) if e.kind == 'foriter' and any(x.kind == 'op' and x.list in s.holders for x in evs[i:])]
+        if not ys or not loops:
+            continue
+        n6 += 1
+        lp = evs[loops[0]]
+        node = lp.node.iter
+        late_copy = None
+        if isinstance(node, (ast.Call, ast.Subscript, ast.ListComp)) and loops[0] > ys[0]:
+            late_copy = ast.unparse(node)
+        elif isinstance(node, ast.Name):
+            v = lp.d.get('iter_val')
+            mk = next((i for i, x in enumerate(evs) if x.kind in ('xcall', 'call') and x.d.get('result') == v), None) if v is not None else None
+            if mk is not None and mk > ys[0]:
+                late_copy = f'{node.id} = {evs[mk].name}(...)'
+        if late_copy:
+            bad6 = (pa, f'the items delivered are `{late_copy}`, evaluated after the transit waits: everything loaded while the fleet was away is delivered with '
+                        f'the returning batch instead of waiting for the next trip')
+    if n6:
+        (r.ok if not bad6 else r.fail)('C14.R6', key6, 'batch decided before the fleet leaves' if not bad6 else bad6[1], src(fi.module), fi.node.lineno,
+                                       *([bad6[0].describe()] if bad6 else []))
